@@ -60,7 +60,7 @@ def isStringKey : Ty → Bool
 /-- `GetJsonDataType` on resolved types. Unions are never asked (cases cannot be unions). -/
 def kinds : Ty → Kinds
   | .prim p => Prim.kinds p
-  | .enum _ isFlags _ => if isFlags then kArr else kStr + kNum
+  | .enum _ isFlags _ => if isFlags then kArr + kNum else kStr + kNum   -- flags: names, or the number when not a combination of declared flags
   | .record _ => kObj
   | .optional _ => 0
   | .union _ _ => 0
@@ -103,7 +103,7 @@ def flagNames : List (String × Int) → Nat → List String → Option (List St
   | (s, v) :: r, remaining, acc =>
     if remaining = 0 then some acc.reverse
     else if v ≤ 0 then flagNames r remaining acc
-    else if v.toNat &&& remaining = v.toNat then flagNames r (remaining - v.toNat) (s :: acc)
+    else if v.toNat &&& remaining = v.toNat then flagNames r (remaining ^^^ (remaining &&& v.toNat)) (s :: acc)   -- `remaining &= ~v`
     else flagNames r remaining acc
 
 structure Fmt where
@@ -356,7 +356,7 @@ def distinct : List (List UInt8) → Bool
 mutual
   def WF : Ty → Bool
     | .prim _ => true
-    | .enum _ fl syms => !fl && distinct (syms.map fun p => strBytes p.1)
+    | .enum _ _ syms => distinct (syms.map fun p => strBytes p.1)
     | .record fs => distinct (names fs) && WFF fs
     | .optional t => WF t && !isNullable t
     | .union _ cs => distinct (names cs) && WFF cs && casesOk cs
